@@ -360,4 +360,61 @@ theorem rollback_restores {st w : St} {target : Nat} (h : Work st w target) :
       rw [hY, e2, e1]
       exact ⟨rfl, rfl, rfl, rfl, rfl, rfl, rfl, rfl, rfl, rfl⟩
 
+
+/-! ### a rejected Decorate / Invoke: parse, then roll back — the container is literally what it was -/
+
+theorem rollback_verified (st w : St) (target : Nat) (l : List Nat) (j : Nat) :
+    ((rollbackProvide st w target l).scope j).verified = (w.scope j).verified := by
+  unfold rollbackProvide
+  obtain ⟨f1, _, _, _, _, _, _, _, f9⟩ := foldl_ghTake st l w
+  have hfold : l.foldl (fun w sc => w.modScope sc fun x =>
+      { x with gh := x.gh.take (st.scope sc).gh.length }) w = l.foldl (ghTakeStep st) w := rfl
+  simp only [hfold]
+  show ((St.modScope (l.foldl (ghTakeStep st) w) target
+      (fun x => { x with providers := (st.scope target).providers })).scope j).verified = _
+  rw [scope_modScope]
+  have hY := f9 j
+  generalize (l.foldl (ghTakeStep st) w).scope j = Y at hY ⊢
+  have : Y.verified = (w.scope j).verified := by rw [hY]; split <;> rfl
+  split <;> simp [this]
+
+theorem scopeSt_ext (a b : ScopeSt) (h : ScopeButVerified a b) (hv : a.verified = b.verified) : a = b := by
+  obtain ⟨h1, h2, h3, h4, h5, h6, h7, h8, h9, h10⟩ := h
+  cases a; cases b
+  simp_all
+
+theorem scopes_ext (a b : List ScopeSt) (hl : a.length = b.length)
+    (h : ∀ j, a.getD j { parent := none } = b.getD j { parent := none }) : a = b := by
+  apply List.ext_getElem? 
+  intro j
+  by_cases hj : j < a.length
+  · have hjb : j < b.length := by omega
+    have := h j
+    rw [List.getD_eq_getElem?_getD, List.getD_eq_getElem?_getD, List.getElem?_eq_getElem hj,
+      List.getElem?_eq_getElem hjb] at this
+    simp only [Option.getD_some] at this
+    rw [List.getElem?_eq_getElem hj, List.getElem?_eq_getElem hjb, this]
+  · rw [List.getElem?_eq_none (by omega), List.getElem?_eq_none (by omega)]
+
+theorem st_ext_of (a b : St) (h : EqButVerified a b) (hv : ∀ j, (a.scope j).verified = (b.scope j).verified) : a = b := by
+  obtain ⟨h1, h2, h3, h4, h5, h6, h7, h8, h9⟩ := h
+  have hs : a.scopes = b.scopes := by
+    apply scopes_ext _ _ h8
+    intro j
+    exact scopeSt_ext _ _ (h9 j) (hv j)
+  cases a; cases b
+  simp_all
+
+/-- parsing a signature for scope `s` and rolling the graphs back gives the container one started from -/
+theorem parse_rollback_eq (env : TyEnv) (st : St) (s : Nat) (fn : Fn) :
+    rollbackProvide st (parseParams env st s fn).2 s (st.subscopes s) = st := by
+  have hw : Work st (parseParams env st s fn).2 s := work_parseParams (Work.refl st s) env fn
+  have he := rollback_restores hw
+  have hg := ghOnly_parseParams env st s fn
+  symm
+  apply st_ext_of _ _ he
+  intro j
+  rw [rollback_verified]
+  exact (hg.2.2.2.2.2.2.2 j).2.2.2.2.2.2.2.2.2
+
 end Dig
